@@ -416,7 +416,7 @@ Print Assumptions c06_observer_view.
    units without access unit delimiters; payloads <= 1200 bytes; sequence
    numbers consecutive from the packer's; marker on the last packet only; RTP
    time stamp = floor(ms * 90000 / 1000) mod 2^32; payload type of the SDP *)
-Theorem c06_rtp_video : forall opus_fixed s m c seq nals,
+Theorem c06_rtp_video : forall rtsp_fixed s m c seq nals,
   rm_type m = type_video -> q_sps s <> None ->
   (q_vpacker s = Some (c, seq) \/ (q_vpacker s = None /\ seq = 0 /\ c = if (q_vpt s =? pt_avc)%Z then Avc else Hevc)) ->
   seq < 65536 -> enhanced_too_short m = false ->
@@ -424,7 +424,7 @@ Theorem c06_rtp_video : forall opus_fixed s m c seq nals,
                      then skipn (enhanced_nalu_index m) (rm_payload m) else skipn 5 (rm_payload m)) = (nals, None) ->
   Forall (fun u => is_aud c u = false -> rtp_unit_ok c u) nals ->
   exists s' pk,
-    remux opus_fixed s m = (s', map (RRtp false) pk)
+    remux rtsp_fixed s m = (s', map (RRtp false) pk)
     /\ rfc_depack c (map rp_payload pk) = Some (filter (not_aud c) nals)
     /\ Forall (fun p => lenN (rp_payload p) <= rtp_max_payload) pk
     /\ seq_chain seq pk /\ marks_ok pk
@@ -438,11 +438,11 @@ Theorem c06_rtp_not_aud : forall c u, nth 0 u 0 < 256 -> not_aud c u = rtp_paylo
 Proof. exact not_aud_is_rtp_payload. Qed.
 Print Assumptions c06_rtp_not_aud.
 
-Theorem c06_rtp_aac : forall opus_fixed s m rate seq,
+Theorem c06_rtp_aac : forall rtsp_fixed s m rate seq,
   rm_type m = type_audio -> audio_codec_id m = sound_aac ->
   q_apacker s = Some (KAac, rate, seq) -> lenN (skipn 2 (rm_payload m)) < 8192 ->
   exists s' p,
-    remux opus_fixed s m = (s', [RRtp true p])
+    remux rtsp_fixed s m = (s', [RRtp true p])
     /\ rfc3640_depack [rp_payload p] = Some [skipn 2 (rm_payload m)]
     /\ rp_seq p = seq /\ rp_mark p = 1 /\ rp_pt p = u8z (q_apt s)
     /\ rp_ts p = (rm_ts m * Z.to_N rate / 1000) mod 4294967296
@@ -450,12 +450,12 @@ Theorem c06_rtp_aac : forall opus_fixed s m rate seq,
 Proof. exact remux_aac. Qed.
 Print Assumptions c06_rtp_aac.
 
-Theorem c06_rtp_raw : forall opus_fixed s m k rate seq,
+Theorem c06_rtp_raw : forall rtsp_fixed s m k rate seq,
   rm_type m = type_audio ->
   (audio_codec_id m = sound_g711a \/ audio_codec_id m = sound_g711u \/ audio_codec_id m = sound_opus) ->
   q_apacker s = Some (k, rate, seq) -> k <> KAac ->
   exists s' p,
-    remux opus_fixed s m = (s', [RRtp true p])
+    remux rtsp_fixed s m = (s', [RRtp true p])
     /\ rp_payload p = skipn 1 (rm_payload m)
     /\ rp_seq p = seq /\ rp_mark p = 1 /\ rp_pt p = u8z (q_apt s)
     /\ rp_ts p = (rm_ts m * Z.to_N rate / 1000) mod 4294967296.
@@ -465,15 +465,45 @@ Print Assumptions c06_rtp_raw.
 (* the analysis phase: whatever the input (any order of headers, metadata,
    frames), the remuxer emits nothing at all, or the SDP exactly once followed
    by RTP packets only *)
-Theorem c06_rtsp_sdp_first : forall b64 hex tool opus_fixed l,
-  let outs := run_rtsp_gen b64 hex tool opus_fixed l in
+Theorem c06_rtsp_sdp_first : forall b64 hex tool rtsp_fixed l,
+  let outs := run_rtsp_gen b64 hex tool rtsp_fixed l in
   outs = [] \/ exists r rest, outs = RSdp r :: rest /\ Forall is_rtp rest.
 Proof.
-  intros b64 hex tool opus_fixed l outs. subst outs. unfold run_rtsp_gen.
-  pose proof (rtsp_sdp_first b64 hex tool opus_fixed l r2r_init) as H. cbn [r2r_init q_done sdp_first] in H.
+  intros b64 hex tool rtsp_fixed l outs. subst outs. unfold run_rtsp_gen.
+  pose proof (rtsp_sdp_first b64 hex tool rtsp_fixed l r2r_init) as H. cbn [r2r_init q_done sdp_first] in H.
   destruct H as [[H _]|(r & rest & H & Hr & _)]; [now left|right; now exists r, rest].
 Qed.
 Print Assumptions c06_rtsp_sdp_first.
+
+(* an AVC sequence header with SEVERAL SPS / PPS (ISO 14496-15 allows up to 31 /
+   255) in the analysis phase: the first SPS and the first PPS become the
+   remuxer's parameter sets - sdp.Pack announces them (c19_sdp), the video
+   packer exists (c06_rtp_video applies) ... *)
+Theorem c06_rtsp_avc_several_parameter_sets : forall b64 hex tool s m sps spss pps ppss,
+  q_done s = false -> rm_type m = type_video -> (lenN (rm_payload m) <=? 5) = false ->
+  is_avc_key_seq_header m = true ->
+  avc_parse_seq_header_list (rm_payload m) = Ok (sps :: spss, pps :: ppss) -> sps <> [] -> pps <> [] ->
+  (forall a b, avc_parse_seq_header (rm_payload m) = Ok (a, b) -> a = sps /\ b = pps) ->
+  feed_rtmp_msg b64 hex tool true s (RMsg m)
+  = do_analyze b64 hex tool true (set_params s (q_vps s) (Some sps) (Some pps)).
+Proof. exact feed_avc_header_list. Qed.
+Print Assumptions c06_rtsp_avc_several_parameter_sets.
+
+(* ... where the pinned tree (avc.ParseSpsPpsFromSeqHeader only: "exactly one of
+   each") kept no parameter set at all: AAC header, a sequence header with two
+   SPS and two PPS, a key frame - the pinned model never leaves the analysis
+   phase (and after 16 messages sends an SDP without video), the current one
+   sends the SDP and the frame's packet *)
+Definition two_ps_vsh : rmsg :=
+  mk_rmsg 9 0 [23;0;0;0;0; 1;100;0;31;255; 226; 0;4; 103;100;0;31; 0;4; 103;77;64;30; 2; 0;2; 104;238; 0;2; 104;206].
+Definition two_ps_witness : list rin :=
+  [RMsg f23_ash; RMsg two_ps_vsh; RMsg (mk_rmsg 9 0 [23;1;0;0;0; 0;0;0;2; 101;136])].
+Theorem c06_rtsp_avc_several_parameter_sets_pinned_refuted :
+  run_rtsp_pinned (fun x => x) (fun x => x) [] two_ps_witness = []
+  /\ exists sdp p, run_rtsp (fun x => x) (fun x => x) [] two_ps_witness = [RSdp (Some sdp); RRtp false p]
+                   /\ rp_payload p = [101; 136].
+Proof. split; [vm_compute; reflexivity|]. eexists. eexists. split; vm_compute; reflexivity. Qed.
+Print Assumptions c06_rtsp_avc_several_parameter_sets_pinned_refuted.
 
 (* floor(ms * rate / 1000) is within one tick of the published time at the clock rate *)
 Theorem c06_rtp_tick : forall ms rate, rate <> 0 ->
